@@ -35,8 +35,8 @@ ALL_NAMES = sorted({a[0].split(':')[-1] for t in ref.ALL for a in ref.attr_table
 def plan(tier, seed):
     # the two whole-list shards visit every class in one process, in opposite orders (validation state cached by
     # whichever type is used first shows up in one of them); they probe enumerated attributes with near-miss literals
-    return [{'slice': i, 'cost': 1} for i in range(NSHARDS)] + [{'slice': 'enum-sorted', 'cost': 1},
-                                                              {'slice': 'enum-reversed', 'cost': 1}]
+    return [{'slice': i, 'cost': 1} for i in range(NSHARDS)] + [{'slice': 'enum-sorted', 'cost': 1, 'fresh_process': True},
+                                                              {'slice': 'enum-reversed', 'cost': 1, 'fresh_process': True}]
 
 
 def pyname(an):
